@@ -17,7 +17,29 @@ META = {
 }
 
 
+def _self_locals(body):
+    """local 1 (`self: &mut Reconnect`) and every local that is only ever a reborrow `&mut *self` (what a spliced `&mut self` helper
+    works on)"""
+    cand, other = set(), set()
+    for bb in range(len(body.blocks)):
+        for st in body.blocks[bb]['stmts']:
+            if 'p' not in st or st['p'].get('pr'):
+                continue
+            rv = st['rv']
+            rf = rv.get('ref') if isinstance(rv, dict) else None
+            if isinstance(rf, dict) and rf.get('l') == 1 and rf.get('pr') == ['*']:
+                cand.add(st['p']['l'])
+            else:
+                other.add(st['p']['l'])
+        t = body.blocks[bb]['term']
+        if t.get('k') == 'call' and isinstance(t.get('dest'), dict) and not t['dest'].get('pr'):
+            other.add(t['dest']['l'])
+    return {1} | (cand - other)
+
+
 def run(R):
+    # helpers written after the pinned tree are spliced so that their result and their moved arguments are the caller's own locals
+    os.environ['VERIF_SPLICE_RENAME'] = '1'
     tonic = R.crate('tonic')
 
     # ---------------------------------------------------------------- R1/R3 typestate over poll_ready
@@ -41,7 +63,7 @@ def run(R):
                 return {v_['name']: v_['discr'] for v_ in ad_['variants']}
             return None
         bools_ = [f_['n'] for f_ in radt_ if f_['ty'] == 'bool' or ('::' in f_['ty'] and '<' not in f_['ty'] and flag_enum(f_['ty']) is not None)]
-        assigned_ = {mirlib.place_fields(st_['p'])[-1] for bb_, i_, st_ in mirlib.assignments(pr, lambda st_: st_['p']['l'] == 1 and mirlib.place_fields(st_['p'])[-1:] and mirlib.place_fields(st_['p'])[-1] in bools_)}
+        assigned_ = {mirlib.place_fields(st_['p'])[-1] for bb_, i_, st_ in mirlib.assignments(pr, lambda st_: st_['p']['l'] in _self_locals(pr) and mirlib.place_fields(st_['p'])[-1:] and mirlib.place_fields(st_['p'])[-1] in bools_)}
         if len(F_STATE) != 1 or len(F_ERR) != 1 or len(bools_) != 2 or len(assigned_) != 1:
             raise CheckError('UNRECOGNISED: Reconnect fields by role: state %r, error slot %r, flags %r (assigned in poll_ready: %r)' % (F_STATE, F_ERR, bools_, sorted(assigned_)))
         F_STATE, F_ERR = F_STATE[0], F_ERR[0]
@@ -117,9 +139,10 @@ def run(R):
             raise CheckError('UNRECOGNISED: expected at most one named local of type State in poll_ready, found %r' % [pr.name_of(l) for l in state_locals])
         # the new state may be staged in a local (`state = State::X; ... self.state = state`) or assigned to self.state directly
         SL = state_locals[0] if state_locals else -1
+        SELF = _self_locals(pr)
 
         def is_self_state(p):
-            return mirlib.place_fields(p) == [F_STATE] and p['l'] == 1
+            return mirlib.place_fields(p) == [F_STATE] and p['l'] in SELF
 
         def on_stmt(body, bb, i, stmt, st):
             if 'p' not in stmt:
@@ -143,7 +166,7 @@ def run(R):
                 v = mirlib.rvalue_variant(body, rv)
                 st['ls'] = frozenset([v[1]]) if v and v[0].endswith('reconnect::State') else frozenset(['?'])
                 return st
-            if p['l'] == 1 and mirlib.place_fields(p) == [F_ERR]:
+            if p['l'] in SELF and mirlib.place_fields(p) == [F_ERR]:
                 st = dict(st)
                 t = strip_refs(body._origin_def(('stmt', bb, i, rv), 0, set()))
                 st['err'] = frozenset(['Some']) if (t[0] == 'agg' and t[1].get('variant') == 'Some') else (frozenset(['None']) if (t[0] == 'agg' and t[1].get('variant') == 'None') else frozenset(['Some', 'None']))
@@ -274,7 +297,7 @@ def run(R):
             R.check(hbf and lzf, 'C14.R3', 'eager-first-failure-only', site(pr, bb), 'Err returned only when has_been_connected == false (%r) and is_lazy == false (%r)' % (hbf, lzf))
             pay = [w for w in block_writes(pr, bb, 0)][0][3][0]
             R.check(term_contains(pay, lambda x: is_call(x, name='poll')) and term_contains(pay, lambda x: x and x[0] == 'variant' and x[2] == 'Err'), 'C14.R3', 'returns-the-connect-error', site(pr, bb), 'payload = %s' % show(pay)[:100])
-        est = [(bb, i, st) for bb, i, st in mirlib.assignments(pr, lambda st: st['p']['l'] == 1 and mirlib.place_fields(st['p']) == [F_ERR])]
+        est = [(bb, i, st) for bb, i, st in mirlib.assignments(pr, lambda st: st['p']['l'] in SELF and mirlib.place_fields(st['p']) == [F_ERR])]
         R.check(len(est) == 1, 'C14.R3', 'error-store-site', site(pr), 'self.error assignments: %d' % len(est))
         for bb, i, st in est:
             v = pr._origin_def(('stmt', bb, i, st['rv']), 0, set())
